@@ -1043,7 +1043,7 @@ def _setup():
     from qstrader import settings
     root = os.path.realpath(os.environ.get('QSTRADER_ROOT', '/repo'))
     assert os.path.realpath(qstrader.__file__).startswith(root), qstrader.__file__
-    settings.PRINT_EVENTS = False
+    settings.PRINT_EVENTS = os.environ.get("PYVC_AMBIENT") == "1"
 
 
 def _run_range(args):
